@@ -281,7 +281,7 @@ PROPS = {
     'C02': dict(
         theorem_files=['C02', 'C02b', 'C02s', 'C02p', 'C01c', 'Snap', 'Trace'],
         parts=[dict(harness='C02', judge='solve_m', cases=dict(quick=8000, thorough=80000), judge_module='Judge.JModel', judge_fn='judge_solve_case_m'),
-               dict(harness='S02', judge='snaps', cases=dict(quick=3000, thorough=30000), judge_module='Judge.J21', judge_fn='judge_snaps'),
+               dict(harness='S02', judge='snaps', cases=dict(quick=10000, thorough=60000), judge_module='Judge.J21', judge_fn='judge_snaps'),
                dict(harness='T02', judge='trace', cases=dict(quick=200, thorough=2000), judge_module='Judge.J22', judge_fn='judge_trace', kernel_cases=12, kernel_maxlen=40000),
                dict(harness='P02', judge='parse', cases=dict(quick=5000, thorough=40000), judge_module='Judge.J23', judge_fn='judge_parse', kernel_cases=60, kernel_maxlen=1500)],
         rule='random sets of 1..n+3 cardinality / PB constraints over 1..10 (quick) or 1..16 (thorough) variables built through '
